@@ -392,6 +392,7 @@ func vRun(t *testing.T, sc *vScenario, opt vRunOpts) *vRunResult {
 		obs := newObserver(s, sc)
 		s.onEv = obs.onEvent
 		s.applyShape(sc)
+		s.lastMaster.Store(sc.Master)
 		for h, sh := range sc.Shape {
 			if sh.Down {
 				s.W.Crash(h)
@@ -441,6 +442,9 @@ func vRun(t *testing.T, sc *vScenario, opt vRunOpts) *vRunResult {
 				case <-tk.C:
 					// lazy: nothing moves before mysync starts freezing (keeps the initial
 					// shape adversarial); eager: always
+					if sc.Policy == "frozen" {
+						continue // replication never moves (persistently stuck catch-up)
+					}
 					if sc.Policy == "eager" || s.freezeSeen.Load() || sc.Policy == "flow" {
 						s.W.Saturate()
 					}
